@@ -78,6 +78,10 @@ def _root_.IncrVerif.Engine.History.c01Applicable (h : History) : Bool :=
     | .arm _ => false
     | _ => true
 
+/-- the same, for histories with an armed fault -/
+def _root_.IncrVerif.Engine.History.c01Applicable' (h : History) : Bool :=
+  ({ h with actions := h.actions.filter fun a => match a with | .arm _ => false | _ => true } : History).c01Applicable
+
 def bodiesApplicable (h : History) : Bool :=
   h.defs.bodies.all fun b => b.2.2.all fun t => t.instrs.all fun i => match i with
     | .cutoff _ c => c == .eq || c == .never
@@ -513,6 +517,188 @@ def holdsC19 (h : History) (tr : ImplTrace) : Verdict := Id.run do
     idx := idx + 1
   return none
 
+/-- C13: after a panic escaped from stabilise nothing half-updated is ever shown: if it came from
+propagation every read fails with CurrentlyStabilising; if it came from an update handler the reads are
+the fully propagated values; a further stabilise refuses to run (and runs no node function); dropping
+everything completes. -/
+def holdsC13 (h : History) (tr : ImplTrace) : Verdict := Id.run do
+  let mut sh := Shadow.init h
+  let mut armed := false
+  let mut poisoned : Option String := none       -- the status the state was left in
+  let mut idx := 0
+  let applicable := h.c01Applicable' && bodiesApplicable h
+  for a in h.actions do
+    let rec_ := tr[idx]?.getD {}
+    sh := sh.step a idx rec_.api
+    match a with
+    | .arm _ => armed := true
+    | .stabilise =>
+      match poisoned with
+      | some _ =>
+        if rec_.api != "panic status" then
+          return some s!"action {idx}: stabilise on a poisoned state answered `{rec_.api}`"
+        if !(invs rec_).isEmpty || !(notifs rec_).isEmpty then
+          return some s!"action {idx}: user code ran in a stabilise on a poisoned state"
+      | none =>
+        if armed && rec_.api == "panic user" then
+          let st := if (words rec_.stats).contains "status=Stabilising" then "Stabilising"
+            else if (words rec_.stats).contains "status=RunningOnUpdateHandlers" then "RunningOnUpdateHandlers"
+            else "NotStabilising"
+          if st == "NotStabilising" then
+            return some s!"action {idx}: a panic escaped from stabilise but the state is not poisoned"
+          poisoned := some st
+          armed := false
+        else if rec_.api.startsWith "panic" then
+          poisoned := some "Stabilising"
+    | .dropAll =>
+      if rec_.api != "ok" then return some s!"action {idx}: dropping everything answered `{rec_.api}`"
+    | _ => pure ()
+    -- reads after the poisoning
+    match poisoned, a with
+    | _, .dropAll => pure ()
+    | some "Stabilising", _ =>
+      for (o, r) in rec_.reads do
+        if r != "err CurrentlyStabilising" && r != "gone" then
+          return some s!"action {idx}: o{o} reads `{r}` although a panic interrupted propagation"
+    | some "RunningOnUpdateHandlers", .stabilise =>
+      -- only at the action of the panic itself the variables are those the propagation used
+      if rec_.api == "panic user" && applicable then
+        for o in List.range sh.obs.size do
+          if sh.inUse o then
+            match sh.obs[o]? with
+            | some (n, _, _, _) =>
+              match denoteOpnd sh.prog denoteFuel [] n with
+              | some v =>
+                let got := (rec_.reads.lookup o).getD "missing"
+                if got != "ok " ++ v.render then
+                  return some s!"action {idx}: a handler panicked after propagation; o{o} reads `{got}`, the fully propagated value is {v.render}"
+              | none => pure ()
+            | none => pure ()
+    | _, _ => pure ()
+    idx := idx + 1
+  return none
+
+/-- integer view of the first argument in an `inv` event's argument text `(a0,a1,…)` -/
+def firstArgInt (args : String) : Int :=
+  let inner := ((args.drop 1).dropEnd 1).toString
+  let first :=
+    if inner.startsWith "(" then (inner.splitOn ")").headD "" ++ ")"
+    else if inner.startsWith "{" then (inner.splitOn "}").headD "" ++ "}"
+    else (inner.splitOn ",").headD "0"
+  ((parseVal first).map Val.toInt).getD 0
+
+/-- what the program text and the invocation log determine about one expert node -/
+structure XShadow where
+  node : Nat                       -- creation index
+  f : Nat                          -- 10*m + kind
+  deps : List (Nat × Nat × Bool) := []   -- (dependency name, child creation index, has callback)
+  script : List Nat := []
+  sel : Option (Nat × Nat) := none
+deriving Inhabited
+
+/-- C14: after every stabilise each valid, needed expert node shows the value of the combinator it
+expresses — the sum over its CURRENT dependencies of the child's CURRENT value (for `cbsum` nodes: over
+the dependencies with a change callback, so a missed or stale callback shows up as a wrong sum) —, it is
+recomputed at most once per stabilise, and it never becomes invalid while all its dependencies are valid. -/
+def holdsC14 (h : History) (tr : ImplTrace) : Verdict := Id.run do
+  let mut sh := Shadow.init h
+  let mut xs : List XShadow := []
+  let mut nextDep := 0
+  let mut idx := 0
+  let mut wasInvalidated : List Nat := []      -- experts invalidated on purpose (xinval)
+  -- the value check needs cutoffs that only suppress equal values (otherwise stale sums are legitimate)
+  let exactCutoffs := h.actions.all fun a => match a with
+    | .create (.cutoff _ c) => c == .eq || c == .never
+    | _ => true
+  for a in h.actions do
+    let rec_ := tr[idx]?.getD {}
+    sh := sh.step a idx rec_.api
+    match a with
+    | .create (.expert f) =>
+      match sh.topAbs.back? with
+      | some n => xs := xs ++ [{ node := n, f := f }]
+      | none => pure ()
+    | .addDep e c cb =>
+      match sh.absOf e, sh.absOf c with
+      | some en, some cn =>
+        xs := xs.map fun x => if x.node == en then { x with deps := x.deps ++ [(nextDep, cn, cb)] } else x
+        nextDep := nextDep + 1
+      | _, _ => pure ()
+    | .stabilise =>
+      -- replay the drivers' scripts in invocation order
+      for (f, _, args, _) in invs rec_ do
+        if f.startsWith "f" then
+          match (f.drop 1).toString.toNat? with
+          | none => pure ()
+          | some fi =>
+            let arg : Int := firstArgInt args
+            for e in ((h.defs.fns.lookup fi).map (·.effects)).getD [] do
+              match e with
+              | .xAdd eo co cb =>
+                match sh.absOf eo, sh.absOf co with
+                | some en, some cn =>
+                  let d := nextDep
+                  nextDep := nextDep + 1
+                  xs := xs.map fun x => if x.node == en then
+                    { x with deps := x.deps ++ [(d, cn, cb)], script := x.script ++ [d] } else x
+                | _, _ => pure ()
+              | .xRm eo i =>
+                match sh.absOf eo with
+                | some en =>
+                  xs := xs.map fun x => if x.node == en && x.script.length > 0 then
+                    let d := x.script[i % x.script.length]?.getD 0
+                    { x with deps := x.deps.filter (·.1 != d), script := x.script.filter (· != d) } else x
+                | none => pure ()
+              | .xSel eo cb always ts =>
+                match sh.absOf eo with
+                | some en =>
+                  if ts.length > 0 then
+                    match sh.absOf (ts[(arg % (ts.length : Int)).toNat]?.getD (.abs 0)) with
+                    | some t =>
+                      let cur := xs.find? (·.node == en)
+                      let same := match cur.bind (·.sel) with | some (_, c) => c == t | none => false
+                      if always || !same then
+                        let d := nextDep
+                        nextDep := nextDep + 1
+                        xs := xs.map fun x => if x.node == en then
+                          let deps := match x.sel with
+                            | some (pd, _) => x.deps.filter (·.1 != pd)
+                            | none => x.deps
+                          { x with deps := deps ++ [(d, t, cb)], sel := some (d, t) } else x
+                    | none => pure ()
+                | none => pure ()
+              | .xInval eo => match sh.absOf eo with
+                | some en => wasInvalidated := en :: wasInvalidated
+                | none => pure ()
+              | _ => pure ()
+      if rec_.api == "ok" then
+        for x in xs do
+          -- at most one recompute per stabilise
+          let runs := (invs rec_).filter fun (f, n, _, _) => f.startsWith "x" && n == x.node
+          if runs.length > 1 then
+            return some s!"action {idx}: expert node n{x.node} was recomputed {runs.length} times in one stabilise"
+          match rec_.snapOf x.node with
+          | none => pure ()
+          | some sn =>
+            let childSnaps := x.deps.map fun (_, c, _) => rec_.snapOf c
+            let allValid := childSnaps.all fun o => match o with | some c => c.valid | none => false
+            if !sn.valid && allValid && !(wasInvalidated.contains x.node) then
+              return some s!"action {idx}: expert node n{x.node} became invalid although all its dependencies are valid"
+            if sn.valid && sn.nec && allValid && exactCutoffs then
+              let m : Int := x.f / 10
+              let vals : List (Option Int) := (x.deps.zip childSnaps).map fun ((_, _, cb), o) =>
+                if x.f % 10 == 1 && !cb then some 0
+                else match o with
+                  | some c => c.val.toInt?
+                  | none => none
+              if vals.all Option.isSome then
+                let want := emod ((vals.filterMap id).foldl (· + ·) 0) m
+                if sn.val != toString want then
+                  return some s!"action {idx}: expert node n{x.node} shows {sn.val}, its current dependencies give {want}"
+    | _ => pure ()
+    idx := idx + 1
+  return none
+
 def evalProp (prop : String) (h : History) (tr : ImplTrace) : Verdict :=
   match prop with
   | "WF" => wellFormed h
@@ -525,6 +711,8 @@ def evalProp (prop : String) (h : History) (tr : ImplTrace) : Verdict :=
   | "C10" => holdsC10 h tr
   | "C09" => holdsC09 h tr
   | "C11" => holdsC11 h tr
+  | "C13" => holdsC13 h tr
+  | "C14" => holdsC14 h tr
   | "C19" => holdsC19 h tr
   | _ => some "unknown-property"
 
